@@ -7,6 +7,7 @@
 package dial
 
 import (
+	"runtime/debug"
 	"bufio"
 	"context"
 	"crypto/sha1"
@@ -343,6 +344,7 @@ type outcome struct {
 	Late       []Event // calls on the conn after Dial returned
 	Cleared    bool
 	Closed     bool
+	Panic      string // Dial panicked: value and innermost library frame
 	Deadlock   string
 	CtxEndedAt time.Duration // -1: never
 	Cancelled  bool
@@ -546,17 +548,27 @@ func dialOnce(sc scenario, plan cancelPlan, o *outcome) {
 		}
 		synctest.Wait()
 		g0 := runtime.NumGoroutine()
-		if sc.Debug > 0 {
-			// The same Dial through the debugging wrapper: cancellation must
-			// be honoured just the same (it only adds a WrapConn).
-			dd := &wsutil.DebugDialer{Dialer: d, OnResponse: func([]byte) {}}
-			if sc.Debug == 1 {
-				dd.OnRequest = func([]byte) {}
+		func() {
+			// A panic inside Dial must not take the bubble (and the worker)
+			// down: it is a result like any other.
+			defer func() {
+				if x := recover(); x != nil {
+					o.Panic = fmt.Sprintf("%v @ %s", x, eng.LibFrame(debug.Stack()))
+					o.Err = fmt.Errorf("panic: %v", x)
+				}
+			}()
+			if sc.Debug > 0 {
+				// The same Dial through the debugging wrapper: cancellation
+				// must be honoured just the same (it only adds a WrapConn).
+				dd := &wsutil.DebugDialer{Dialer: d, OnResponse: func([]byte) {}}
+				if sc.Debug == 1 {
+					dd.OnRequest = func([]byte) {}
+				}
+				o.Conn, o.BR, _, o.Err = dd.Dial(ctx, url)
+			} else {
+				o.Conn, o.BR, _, o.Err = d.Dial(ctx, url)
 			}
-			o.Conn, o.BR, _, o.Err = dd.Dial(ctx, url)
-		} else {
-			o.Conn, o.BR, _, o.Err = d.Dial(ctx, url)
-		}
+		}()
 		if o.BR != nil {
 			// "received non-nil bufio.Reader should be returned ... with
 			// PutReader()": the caller does, whatever the error says (the sim
@@ -812,6 +824,9 @@ func check(r *eng.Run, sc scenario, plan cancelPlan, o *outcome) {
 		r.Internalf("bubble panic: %s", o.Deadlock)
 	}
 	trace := describe(o)
+	if o.Panic != "" {
+		r.Failf("panic", "%s: Dial panicked: %s; conn calls:%s", tag, o.Panic, trace)
+	}
 	if o.Err == nil {
 		r.Probe("dial_success")
 		// R1
